@@ -8,7 +8,7 @@ import { canon } from '../runtime/canon.mjs';
 export const id = 'C03';
 
 export const HOSTS = ['boundImport', 'unbound', 'member', 'Teleport'];
-export const SHAPES = ['none', 'identBound', 'identUnbound', 'call', 'arrow', 'fnExpr', 'object', 'text', 'element', 'memberExpr', 'cond', 'mixed1', 'mixed2', 'spread', 'nestedComp', 'wsOnly'];
+export const SHAPES = ['none', 'identBound', 'identUnbound', 'call', 'arrow', 'fnExpr', 'object', 'text', 'element', 'memberExpr', 'cond', 'mixed1', 'mixed2', 'spread', 'spreadCall', 'spreadThenText', 'nestedComp', 'wsOnly'];
 export const KINDS = ['vnode', 'string', 'array', 'slots', 'slotfn', 'number', 'nullish'];
 export const VSLOTS = ['absent', 'ident', 'objLit'];
 export const CONTEXTS = ['arrowExpr', 'moduleLevel', 'fnBody', 'nestedBlock', 'classMethod', 'arrowInArrow'];
@@ -80,6 +80,8 @@ export function makeKids(b, shape, kind, st = { n: 0 }) {
       return [C.el({ tag: { kind: 'html', name: 'i', src: 'i' }, attrs: [], children: [], selfClose: true }), { ...C.expr(b.leaf(g), g), shape: 'ident' }, C.text(' tail')];
     }
     case 'spread': { const g = b.global({ k: 'arr', v: [{ k: 'str', v: 's1' }, { k: 'str', v: 's2' }] }); return [C.spread(b.leaf(g), g)]; }
+    case 'spreadCall': { const f = b.fnGlobal({ k: 'arr', v: [{ k: 'str', v: 'c1' }, { k: 'vnode', id: 'spv' }] }); return [C.spread(b.leaf(`${f}()`), `${f}()`)]; }
+    case 'spreadThenText': { const f = b.fnGlobal({ k: 'arr', v: [{ k: 'str', v: 'c1' }] }); return [C.spread(b.leaf(`${f}()`), `${f}()`), C.text(' t')]; }
     case 'nestedComp': {
       b.importNamed('probe:lib', 'N1');
       const f = b.fnGlobal(val);
